@@ -227,6 +227,9 @@ type speller struct {
 	r      *rand.Rand
 	sb     strings.Builder
 	subset bool // bootstrap subset: blanks and tabs only, no comments, no newline inside a rule
+	// comments: with subset, also write one-line block comments at blank sites and line comments after
+	// rules - outside the subset as pinned, used by C20's probe texts
+	comments bool
 }
 
 func (s *speller) off() int { return s.sb.Len() }
@@ -240,6 +243,13 @@ func (s *speller) ws(need bool) {
 			k = 1
 		}
 		s.sb.WriteString(strings.Repeat(" ", k))
+		if s.comments && r.Intn(3) == 0 {
+			if str := s.sb.String(); len(str) > 0 && str[len(str)-1] == '/' {
+				s.sb.WriteString(" ")
+			}
+			s.sb.WriteString([]string{"/* c } { */", "/***/", "/** doc **/", "/* a * b ** c */", "/* // */", "/* was: Digit* / Word */", "/* x*/", "/* * / * */"}[r.Intn(8)])
+			s.sb.WriteString(" ")
+		}
 		return
 	}
 	n := r.Intn(3)
@@ -535,6 +545,10 @@ func (s *speller) grammar(init string, rules []*arule) (initOff int) {
 		s.emit(ru.expr, 0)
 		last := i == len(rules)-1
 		if s.subset {
+			if s.comments && s.r.Intn(4) == 0 {
+				s.sb.WriteString(" // trailing * / comment\n")
+				continue
+			}
 			s.sb.WriteString([]string{"\n", ";", " ;\n", "\n\n", "; "}[s.r.Intn(5)])
 			continue
 		}
